@@ -46,6 +46,16 @@ def run(ctx):
     exact, mutants = common.gen_cases(ctx, ['sct', 'sct_list'], n, corrupt_limit=10)
     common.run_exact(ctx, exact)
     common.run_differential(ctx, mutants, common.proj_value)
+    # all truncations (named by the property's quantifier): never a value; asking for more input vs rejecting as the model does
+    trunc, per_fam = [], {}
+    for c in exact:
+        if c.value is not None and c.rem == 0:
+            per_fam.setdefault(c.fam, []).append(c)
+    for c in [c for cs in per_fam.values() for c in cs[:(400 if ctx.thorough else 40)]]:
+        for p in (range(len(c.buf)) if len(c.buf) <= 160 else sorted({ctx.rng.randrange(len(c.buf)) for _ in range(12)} | {0, 1, 2, 3, len(c.buf) - 1})):
+            trunc.append(enc.Case(c.fam + '/alltrunc', c.op, c.buf[:p], [], None))
+    common.run_differential(ctx, trunc, common.proj_trunc,
+                            classify=lambda c, r: 'a strict prefix of the structure must not yield a value' if r.startswith('ok ') else None)
     ov = overrun_cases(ctx)
     def cls(c, r):
         if not r.startswith('ok '):
@@ -63,7 +73,7 @@ def run(ctx):
         common.run_differential(ctx, ['sct_list ' + hx], common.proj_value, label='corpus')
     common.lean_failure_violation(ctx, ok)
     return ctx.finish(LEVEL,
-        rule='SCT entries and lists of 0..n SCTs from the independent RFC 6962 encoder (all versions, timestamps over the u64 range, extension/signature lengths at boundaries; exact), suffixes, nested length corruptions and truncations (differential), entry-overrun (exact: the preceding SCTs only) and list-overrun (class: no value); the captured list of tests/; distinct = (family, outcome shape)',
+        rule='SCT entries and lists of 0..n SCTs from the independent RFC 6962 encoder (all versions, timestamps over the u64 range, extension/signature lengths at boundaries; exact), suffixes, nested length corruptions and truncations (differential), every strict prefix of short encodings (class: never a value; Incomplete vs rejection as the model), entry-overrun (exact: the preceding SCTs only) and list-overrun (class: no value); the captured list of tests/; distinct = (family, outcome shape)',
         checker_cmd='cd /verif/lean && lake build TlsModel.Props.C14', assumptions=[])
 
 
